@@ -85,6 +85,13 @@ impl Printer {
 
     pub fn with_noise(noise: Vec<u8>) -> Self {
         let mut p = Printer::new();
+        // one noisy layout in 32 starts after 65 530 to 66 295 blank lines: every line number of the
+        // program then needs more than 16 bits
+        if noise.len() >= 2 && noise[0] % 32 == 7 {
+            for _ in 0..(65_530 + noise[1] as usize * 3) {
+                p.nl();
+            }
+        }
         p.noise = noise;
         p
     }
